@@ -18,6 +18,11 @@ use vcore::{hx, Args, Report, Rng, Sx};
 pub fn reveals_of(b: &ABundle) -> HashMap<[u8; 32], [u8; 32]> {
     let mut m: HashMap<[u8; 32], [u8; 32]> =
         b.spends.iter().map(|s| (s.coin_id(), puzzle(s.puzzle_idx).tree_hash())).collect();
+    // only when every coin field is well-formed: a corrupted amount atom makes a spend report
+    // another amount, which may be the (parent, amount) of a sibling with another puzzle
+    if !b.as_spendbundle_ok() {
+        return m;
+    }
     let mut slots: HashMap<[u8; 32], Vec<[u8; 32]>> = HashMap::new();
     for s in &b.spends {
         slots.entry(crate::common::reveal_slot(&s.parent, s.amount)).or_default().push(puzzle(s.puzzle_idx).tree_hash());
